@@ -124,6 +124,9 @@ class VECTOR_BLF_EXPORT UncompressedFile final : public AbstractFile {
     /** put position */
     std::streampos m_tellp {};
 
+    /** position up to which a blocked read needs data (0 while no read is waiting) */
+    std::streampos m_readDemand {};
+
     /** last read size */
     std::streamsize m_gcount {};
 
